@@ -84,8 +84,8 @@ def page_info_unit(kf):
         impl = f'impl<Cursor, Node, ConnectionFields, EdgeFields, Name, EdgeName> Connection<Cursor, Node, ConnectionFields, EdgeFields, Name, EdgeName, {flavour}>'
         u.extract_fn(CT, [impl, 'fn page_info'], name=f'page_info_{flavour}', label=f'{CT}::impl Connection<.., {flavour}>::fn page_info',
                      sig_rewrites=[AwaitErase(), ReSub(r'fn page_info\(&self\)', 'fn page_info<Cursor: CursorType>(this: &Connection<Cursor>)')],
-                     rewrites=[AwaitErase(), Sub('self.edges.first()', 'vec_first(&this.edges)', rule='R-ty'), Sub('self.edges.last()', 'vec_last(&this.edges)', rule='R-ty'),
-                               ClosureMatch('opt.map', count=2), Sub('self.', 'this.', count='+', rule='R-self')],
+                     rewrites=[AwaitErase(), Sub('self.edges.first()', 'vec_first(&this.edges)', count='*', rule='R-ty'), Sub('self.edges.last()', 'vec_last(&this.edges)', count='*', rule='R-ty'),
+                               ClosureMatch('opt.map', count='*'), Sub('self.', 'this.', count='+', rule='R-self')],
                      ensures=['r.has_previous_page == this.has_previous_page && r.has_next_page == this.has_next_page',
                               'match r.start_cursor { Some(c) => this.edges@.len() > 0 && c@ == this.edges@[0].cursor.spec_encode(), None => this.edges@.len() == 0 }   // the FIRST edge',
                               'match r.end_cursor { Some(c) => this.edges@.len() > 0 && c@ == this.edges@[this.edges@.len() - 1].cursor.spec_encode(), None => this.edges@.len() == 0 }   // the LAST edge'])
